@@ -3,7 +3,8 @@
    Model: Shape/Chain.v (parse_tree_builder.py as coded), specification: Shape/Spec.v. *)
 From Coq Require Import String Ascii List Bool Arith.
 From LV Require Import Base.Prelude Shape.Chain Shape.Spec Shape.Chain_proofs Shape.Shape_proofs
-  Shape.Ebnf Shape.Ebnf_proofs.
+  Shape.Ebnf Shape.Ebnf_proofs Cfg.Grammar Forest.Sppf Forest.Prio Forest.ExplicitBuild
+  Shape.EarleyLeg Shape.EarleyLeg_proofs.
 Import ListNotations.
 Local Open Scope string_scope.
 
@@ -66,6 +67,31 @@ Theorem C03_shape_total mp d : wf_dtree mp d = true -> exists t, shape mp d = So
 Proof. exact (shape_total mp d). Qed.
 Print Assumptions C03_shape_total.
 
+(* Earley, ambiguity='resolve'.  [s] is the forest (sharing unfolded) rooted at (start, i, j), an
+   unfolding of the forest F as built, whose families all have the local form of an add_family
+   call (C04 layer A).  ForestToParseTree in resolve mode, calling lark's chain callback of the rule
+   at every completed family it keeps (EarleyLeg.earley_resolve), returns exactly [shape] of one
+   derivation stored in the forest (the one C05 characterises), and that derivation is a
+   well-formed derivation of the compiled grammar whose lexemes tile the input from i to j.
+   Rule ids are indices into the table of rule records; nt_ix / t_ix number the symbol names. *)
+Theorem C03_earley_resolve_is_shape_of_derivation
+        (rules : list rrec) (mp : bool) (nt_ix t_ix : string -> nat)
+        (F : nlabel EarleyLeg.lexeme -> family EarleyLeg.lexeme -> Prop) tlen occurs s a i j :
+  Forall (fun r => rule_wf r mp = true /\ inline_ok r = true) rules ->
+  (forall x y, nt_ix x = nt_ix y -> x = y) -> (forall x y, t_ix x = t_ix y -> x = y) ->
+  (forall lbl f, F lbl f -> fam_ok (cfg_grammar rules nt_ix t_ix) EarleyLeg.lexeme (lx_match t_ix) tlen occurs lbl f) ->
+  wfb s = true -> unf rules nt_ix t_ix F s (NSym EarleyLeg.lexeme a i j) ->
+  exists t,
+    resolve s = [t] /\
+    wfd (cfg_grammar rules nt_ix t_ix) EarleyLeg.lexeme (lx_match t_ix) (to_dt rules nt_ix t_ix t) (NT a) /\
+    tiles EarleyLeg.lexeme tlen occurs i j (yield EarleyLeg.lexeme (to_dt rules nt_ix t_ix t)) /\
+    wf_dtree mp (to_dtree rules t) = true /\
+    earley_resolve rules mp s = option_map (fun v => [v]) (shape mp (to_dtree rules t)).
+Proof.
+  intros Ht Hn Htx HF. exact (earley_resolve_is_shape_of_derivation rules mp Ht nt_ix t_ix Hn Htx F tlen occurs HF s a i j).
+Qed.
+Print Assumptions C03_earley_resolve_is_shape_of_derivation.
+
 (* Non-vacuity: `?a: _x "," [B] c -> no alias`, with an inlined child, a filtered token, an
    untaken placeholder before the last symbol. *)
 Definition ex_rule : rrec :=
@@ -88,8 +114,8 @@ Proof. repeat split; vm_compute; reflexivity. Qed.
 
 Definition ex_x : rrec := mkR "_x" [mkSym true "A" false] None None false false [].
 Definition ex_c : rrec := mkR "c" [] None None false false [].
-Definition ex_deriv : dtree :=
-  DNode ex_rule [DNode ex_x [DTok "A" "a"]; DTok "COMMA" ","; DNode ex_c []].
+Definition ex_deriv : Spec.dtree :=
+  Spec.DNode ex_rule [Spec.DNode ex_x [DTok "A" "a"]; DTok "COMMA" ","; Spec.DNode ex_c []].
 
 Example C03_example_derivation :
   wf_dtree true ex_deriv = true /\
